@@ -74,8 +74,11 @@ func Start() *Engine {
 				}
 			case id := <-e.removeWatcher:
 				logrus.Info("Remove watcher")
-				watchers[id].close()
-				delete(watchers, id)
+				// Cancelling twice, or after a hangup, is a no-op.
+				if w, ok := watchers[id]; ok {
+					w.close()
+					delete(watchers, id)
+				}
 			case req := <-e.updateDB:
 				logrus.Info("Update DB")
 				logrus.Infof("-> %#v", req.expr)
